@@ -222,10 +222,12 @@ let dispatch (req : string list) (impl : string list) : string * string =
     let ron = (match Zenc.next c with "~" -> None | "!" -> Some None | "R" -> Some (Some (Zenc.schema c)) | o -> failwith ("ron " ^ o)) in
     let custom = (match Zenc.next c with "~" -> None | "!" -> Some None | "J" -> Some (Some (Zenc.json c)) | o -> failwith ("custom " ^ o)) in
     let a = Args.parse argv ron custom in
+    (* optional trailing "N <seconds>": the wall clock the run saw (process-level checks); 0 otherwise *)
+    let now = if c.Zenc.i + 1 < Array.length c.Zenc.f && c.Zenc.f.(c.Zenc.i) = "N" then n_of_dec c.Zenc.f.(c.Zenc.i + 1) else N0 in
     let reply =
       if mode = "zerv" then
-        (match version_zerv a stdin N0 with OOk z -> "OK " ^ Zenc.enc_zerv z | OErr -> "ERR" | OPanic -> "PANIC")
-      else (match version_output a stdin N0 with OOk t -> "OK " ^ field_of_str t | OErr -> "ERR" | OPanic -> "PANIC")
+        (match version_zerv a stdin now with OOk z -> "OK " ^ Zenc.enc_zerv z | OErr -> "ERR" | OPanic -> "PANIC")
+      else (match version_output a stdin now with OOk t -> "OK " ^ field_of_str t | OErr -> "ERR" | OPanic -> "PANIC")
     in
     (reply, (match impl with "PANIC" :: _ -> "BAD:panic" | "REPARSE-FAILED" :: _ -> "BAD:emitted-zerv-does-not-parse" | _ -> "NA"))
   | "FLW" :: mode :: _ ->
